@@ -14,6 +14,8 @@ NEUTRALS = [{'name': 'bound check as chained comparison', 'file': 'partitura/uti
 
 # changes made by sub-agents that were given only the property text (see /verif/seeded/<id>/): each must stay reported
 SEEDED = [
+    {'name': 'seeded change C12-r4b', 'seed': 'C12-r4b', 'expect': '|ACC-repeat|'},
+    {'name': 'seeded change C12-r4a', 'seed': 'C12-r4a', 'expect': '|PARAM-used|'},
     {'name': 'seeded change C12-r3', 'seed': 'C12-r3', 'expect': '|F3|'},
     {'name': 'seeded change C12-r2', 'seed': 'C12-r2', 'expect': '|F7f|'},
     {'name': 'seeded change C12', 'seed': 'C12', 'expect': '|RET|'},
